@@ -27,7 +27,9 @@ vars == <<pool, act, checked, blk>>
 
 Mid       == pool.upd.on          \* an Update is between two committed-marker writes
 Normal    == ~Mid /\ pool.saved = pool.height /\ pool.tip = pool.height
-Crashed   == ~Mid /\ pool.saved < pool.height
+\* died between the two persistence steps at the end of ApplyBlock: pool ahead of the saved
+\* state (real order) or the saved state ahead of the pool (Weak_UpdateAfterStateSave)
+Crashed   == ~Mid /\ pool.saved # pool.height
 Replaying == ~Mid /\ pool.saved = pool.height /\ pool.tip > pool.height
 
 Lists == UNION {[1..n -> AddIds] : n \in 1..MaxList}
@@ -70,7 +72,11 @@ DoUpdate(ids, crash) ==
   /\ ~Crashed
   /\ pool.height + 1 <= Ctx.N
   /\ IF Replaying THEN ids = blk ELSE ids \in {<< >>, checked}
-  /\ Do([name |-> "Update", to |-> pool.height + 1, ids |-> ids, crash |-> crash])
+  \* crash = TRUE: the node dies between the two persistence steps at the end of ApplyBlock,
+  \* i.e. after the first one: evpool.Update -- or, Weak_UpdateAfterStateSave, the state save
+  /\ IF crash /\ Weak_UpdateAfterStateSave
+     THEN Do([name |-> "SaveState", to |-> pool.height + 1, ids |-> ids])
+     ELSE Do([name |-> "Update", to |-> pool.height + 1, ids |-> ids, crash |-> crash])
   /\ blk' = ids
   /\ checked' = << >>
 
@@ -82,7 +88,7 @@ DoPending(mb) ==
 
 DoRestart ==
   /\ ~Mid
-  /\ pool.tip = pool.height        \* not in the middle of a replay
+  /\ pool.tip = pool.height \/ pool.saved > pool.height     \* not in the middle of a replay
   /\ Do([name |-> "Restart"])
   /\ checked' = << >>
   /\ UNCHANGED blk
